@@ -91,7 +91,13 @@ def check_request(ctx: Ctx) -> None:
         except_chain_order(ctx, 'R12.1', f, t, label='api.request')
 
     # the loop is driven by the configured backoffs (def-use closure of the iterated expression)
-    seen, todo, found = set(), [loop.iter], False
+    # (a `for` over the backoffs, or a `while` whose body draws the next backoff with next(<iterator>, None))
+    if isinstance(loop, ast.While):
+        driver = [c.args[0] for st in loop.body for c in ast.walk(st) if isinstance(c, ast.Call) and isinstance(c.func, ast.Name) and c.func.id == 'next' and c.args]
+        drv = driver[0] if driver else loop.test
+    else:
+        drv = loop.iter
+    seen, todo, found = set(), [drv], False
     while todo:
         e = todo.pop()
         for n in ast.walk(e):
@@ -103,7 +109,7 @@ def check_request(ctx: Ctx) -> None:
                     if isinstance(a, ast.Assign) and any(isinstance(t, ast.Name) and t.id == n.id for t in a.targets):
                         todo.append(a.value)
     ctx.ob('R12.1', 'api.request: the retry loop iterates over settings.networking.error_backoffs', found, loc=f.loc(loop),
-           construct=construct(f, 'config:backoffs-source'), detail=norm(loop.iter))
+           construct=construct(f, 'config:backoffs-source'), detail=norm(drv))
 
     api_errors = sorted(c for c in repo.classes if c.startswith(ERR + '.') and repo.is_subclass(c, 'Exception')
                         and (repo.is_subclass(c, f'{ERR}.APIError') or c == f'{ERR}.APISessionClosed'))
